@@ -353,6 +353,7 @@ impl LedgerWorld {
             json!({"known": false, "from0": "", "hops": []})
         };
         json!({
+            "src_size": 0,
             "inner": inner,
             "id": desc.map(|d| d.id.clone()).unwrap_or_default(),
             "type": tx.transaction_type as u8,
